@@ -170,9 +170,8 @@ inductive Op
 
 /-- `Keccak.__call__(M,bitlen,r)`: `r=None` uses `self.r` (`assert self.r`); a given `r` is checked like `setrate`
     does (`assert r<=1536`) and used for this call only -/
-def callR (c : Keccak.Cfg) (M : List Nat) (bitlen : Option Nat) : Option Nat → Except Err (List Nat)
-  | none => Keccak.call c M bitlen
-  | some r => if r > 1536 then .error "AssertionError" else Keccak.call { c with r := r } M bitlen
+def callR (c : Keccak.Cfg) (M : List Nat) (bitlen : Option Nat) (r : Option Nat) : Except Err (List Nat) :=
+  (Keccak.callR c M bitlen r).2
 
 /-- `SHA3.__call__(M)` = `Keccak.__call__(self,M+b'\x02',bitlen=8|M|+2)` -/
 def sha3call (c : Keccak.Cfg) (M : List Nat) : Except Err (List Nat) :=
